@@ -250,9 +250,62 @@ SMALL_KEYS = [
 ]
 
 
+NESTED_ROWS = [(1, [(10, "a"), (11, "b")], "p"), (2, [], "q"), (3, [(30, "c")], "r")]
+
+
+def nested_programs():
+    """(program on D over (i, n{x,y}, t), expected listing) — one nested level, oracle only (outside the Lean model)"""
+    R = NESTED_ROWS
+    inner = lambda f=None: [[ir for ir in r[1] if f is None or f(ir)] for r in R]
+    yield [("str", "n")], inner()
+    yield [("str", "n"), ("str", "x")], [[ir[0] for ir in rr] for rr in inner()]
+    yield [("str", "n"), ("list", ["y", "x"])], [[(ir[1], ir[0]) for ir in rr] for rr in inner()]
+    yield [("list", ["t", "n"]), ("str", "n"), ("str", "y")], [[ir[1] for ir in rr] for rr in inner()]
+    yield [("cond", "s.i", ">", "1"), ("str", "n"), ("sl", 1, None, None)], inner()[1:][1:]
+    yield [("list", ["t", "n"]), ("sl", None, 2, None)], [(r[2], r[1]) for r in R][:2]
+    yield [("cond", "s.n.x", ">", "10")], [(r[0], [ir for ir in r[1] if ir[0] > 10], r[2]) for r in R]
+    yield [("cond", "s.n.x", ">", "10"), ("str", "n"), ("str", "y")], [[ir[1] for ir in r[1] if ir[0] > 10] for r in R]
+    yield [("list", ["n", "i"]), ("cond", "s.n.y", "!=", '"a"'), ("str", "n")], [[ir for ir in r[1] if ir[1] != "a"] for r in R]
+
+
+def check_nested(ctx, fns):
+    IterData, CSVData, CE, BaseType, SequenceType = fns
+
+    def conv(x):
+        if isinstance(x, IterData):
+            return [conv(r) for r in x]
+        if isinstance(x, tuple):
+            return tuple(conv(v) for v in x)
+        if isinstance(x, list):
+            return [conv(v) for v in x]
+        return x
+
+    for ops, exp in nested_programs():
+        s = SequenceType(SID)
+        s["i"] = BaseType("i")
+        n = s["n"] = SequenceType("n")
+        n["x"] = BaseType("x")
+        n["y"] = BaseType("y")
+        s["t"] = BaseType("t")
+        cur = IterData(list(NESTED_ROWS), copy.copy(s))
+        case = {"nested": True, "ops": [list(k) for k in ops]}
+        try:
+            for k in ops:
+                cur = cur[key_py(k, CE)]
+            got = [conv(r) for r in cur]
+            again = [conv(r) for r in cur]
+        except Exception as e:
+            got = again = "raised " + type(e).__name__
+        if got != exp or again != got:
+            ctx.oracle_fail("nested table: stream does not list the reference rows", case, repr(got), repr(exp),
+                            size=50 + len(ops))
+        ctx.count(("nested", repr(ops)), True, tag="nested:len%d" % len(ops), sample=case)
+
+
 def explore(ctx, fns, tier, search=False):
     tmpdir = tempfile.mkdtemp(prefix="c17-")
     try:
+        check_nested(ctx, fns)
         cases = []
         # (a) exhaustive: every chain of length <= 3 over the key alphabet, 4x3 table, both constructors
         for kind in ("it", "csv"):
@@ -310,6 +363,20 @@ def replay(payload):
         print("nothing to replay: %s" % payload.get("no_longer_checks"))
         return False
     c = f["case"]
+    if c.get("nested"):
+        class Rec:
+            fail = 0
+
+            def oracle_fail(self, what, case, observed, expected, cls=None, size=None):
+                if case["ops"] == c["ops"]:
+                    print(what, "observed", observed, "expected", expected)
+                    self.fail += 1
+
+            def count(self, *a, **k):
+                pass
+        rec = Rec()
+        check_nested(rec, fns)
+        return rec.fail == 0
     ops = [tuple(k) for k in c["ops"]]
     rows = [tuple(r) for r in c["rows"]]
     res = [tuple(r[:2]) + (tuple(r[2]),) if r else None for r in c["resolved"]]
